@@ -421,8 +421,11 @@ def faults(rng, r, lead=""):
     aggs = [sp for sp in spans if sp[3]]
     for (a, b, t, _) in aggs:
         yield "delete_end", doc[:a] + doc[b:]
-        for new in (t + "X", "ZZ", t[:-1] if len(t) > 1 else "Q", t.lower() if t.lower() != t else t + "x"):
-            yield "rename_end", doc[:a] + f"</{new}>" + doc[b:]
+        # spellings: longer, unrelated, proper prefix, other case, proper suffix, the name as the tail of a longer/'path' name
+        for new in (t + "X", "ZZ", t[:-1] if len(t) > 1 else "Q", t.lower() if t.lower() != t else t + "x",
+                    t[1:] if len(t) > 1 else "Q" + t, "X" + t, "A/" + t, t[len(t) // 2:] if len(t) > 3 else t + "_"):
+            if new != t:
+                yield "rename_end", doc[:a] + f"</{new}>" + doc[b:]
         yield "dup_end", doc[:b] + doc[a:b] + doc[b:]
         yield "end_with_blank", doc[:a] + f"</{t} >" + doc[b:]
     # transposition of two consecutive aggregate end tags (only separated by whitespace)
